@@ -97,7 +97,7 @@ pub fn accepted_pairs(c: Cont) -> Vec<(TileFormat, TileCompression)> {
 /// The repository's MBTiles reader/writer each create an r2d2 pool whose three worker threads
 /// linger for up to 30 s after the pool is dropped (fixed-rate reaper job). To keep the number of
 /// lingering threads bounded, at most POOL_LIMIT pools are created per 31 s window.
-const POOL_LIMIT: usize = 2400;
+const POOL_LIMIT: usize = 4000;
 static POOL_TIMES: std::sync::Mutex<std::collections::VecDeque<std::time::Instant>> = std::sync::Mutex::new(std::collections::VecDeque::new());
 pub fn mbtiles_pool_token() {
 	loop {
